@@ -51,11 +51,7 @@ func Choice(n int) int {
 }
 
 func Param(name string) int {
-	v, ok := cur.Params[name]
-	if !ok {
-		panic("undefined harness parameter " + name)
-	}
-	return v
+	return cur.Params[name] // parameters not given are 0
 }
 
 func Assume(c bool) {
